@@ -2,6 +2,7 @@
 
 use crate::infra::*;
 use crate::props::queue::*;
+use crate::props::srvq;
 use serde_json::Value;
 use std::sync::OnceLock;
 
@@ -14,6 +15,13 @@ fn scen(tier: Tier) -> &'static Vec<QScenario> {
     cell.get_or_init(|| if "C17" == "C07" { scenarios_c07(tier) } else { scenarios_c17(tier) })
 }
 
+fn srv_scen(tier: Tier) -> &'static Vec<(srvq::SScenario, u32)> {
+    static Q: OnceLock<Vec<(srvq::SScenario, u32)>> = OnceLock::new();
+    static T: OnceLock<Vec<(srvq::SScenario, u32)>> = OnceLock::new();
+    let cell = if tier == Tier::Quick { &Q } else { &T };
+    cell.get_or_init(|| srvq::scenarios("C17", tier))
+}
+
 impl Check for C17 {
     fn id(&self) -> &'static str {
         "C17"
@@ -22,16 +30,30 @@ impl Check for C17 {
         "model_checking"
     }
     fn n_items(&self, tier: Tier) -> u64 {
-        scen(tier).len() as u64
+        (scen(tier).len() + srv_scen(tier).len()) as u64
     }
     fn chunk(&self, _tier: Tier) -> u64 {
         4
     }
     fn run_item(&self, idx: u64, tier: Tier, acc: &mut Acc) {
-        run_queue_item("C17", &scen(tier)[idx as usize], tier, acc);
+        let nq = scen(tier).len() as u64;
+        if idx < nq {
+            run_queue_item("C17", &scen(tier)[idx as usize], tier, acc);
+        } else {
+            let (sc, bound) = &srv_scen(tier)[(idx - nq) as usize];
+            srvq::run_item("C17", sc, *bound, tier, acc);
+        }
     }
     fn rule(&self, tier: Tier) -> String {
-        rule_text("C17", tier, scen(tier).len())
+        format!(
+            "{} || server seam: real Server, application threads with programs over {{recv, recv_timeout(T), try_recv, incoming_requests().next()}} (every single program and pair{}), connections {} with pipelined requests, {} unblock calls, receivers blocked first or racing; {} scenarios, strict bound {}; same oracles read through Server::verif_queue_snapshot (hook H5)",
+            rule_text("C17", tier, scen(tier).len()),
+            if tier == Tier::Thorough { " and one triple" } else { "" },
+            if "C17" == "C07" { "[1] [2] [1,1] [2,1]" } else { "[] [1] [1,1]" },
+            if "C17" == "C07" { "0..1" } else { "1..2" },
+            srv_scen(tier).len(),
+            if tier == Tier::Thorough { "2 (<= 2 receivers+connections) / 1" } else { "1 / 0" }
+        )
     }
     fn assumptions(&self) -> Vec<String> {
         vec![
@@ -40,6 +62,10 @@ impl Check for C17 {
         ]
     }
     fn replay(&self, replay: &Value, acc: &mut Acc) {
-        replay_queue("C17", replay, acc);
+        if replay["scenario"]["seam"].as_str() == Some("Server") {
+            srvq::replay("C17", replay, acc);
+        } else {
+            replay_queue("C17", replay, acc);
+        }
     }
 }
